@@ -279,3 +279,36 @@ def spec_calc_stat(values_by_zones, zone_breaks, unique_zones, zone_ids, nzi, fu
     if any(zone_ids[k] == unique_zones[i] for k in range(0, nzi)) and len(zv) > 0:
         return func(zv)
     return nan
+
+
+# ------------------------------------------------------------------ C06 proximity
+def spec_dist(x1, x2, y1, y2, metric):
+    # EUCLIDEAN = 0, GREAT_CIRCLE = 1, MANHATTAN = 2 (any other value is treated as MANHATTAN, like the code)
+    if metric == 0:
+        return spec_euclid(x1, x2, y1, y2)
+    if metric == 1:
+        return spec_great_circle(x1, x2, y1, y2, 6378137)
+    return spec_manhattan(x1, x2, y1, y2)
+
+
+def spec_direction(x1, x2, y1, y2):
+    # compass bearing from (x1, y1) to (x2, y2) in the library's convention: 0 for the cell itself, 90 east, 180 towards
+    # larger y, 270 west, 360 towards smaller y
+    if x1 == x2 and y1 == y2:
+        return 0.0
+    d = atan2(-(y2 - y1), x2 - x1) * 57.29578
+    if d < 0:
+        return 90.0 - d
+    if d > 90.0:
+        return 360.0 - d + 90.0
+    return 90.0 - d
+
+
+def is_tgt(v, values, nv):
+    # default targets: non-zero finite cells; otherwise members of target_values
+    if nv == 0:
+        return v != 0 and isfinite(v)
+    return any(v == values[i] for i in range(0, nv))
+
+
+OPAQUE |= {"spec_dist", "is_tgt", "spec_direction"}
